@@ -87,7 +87,8 @@ def evaluate(case):
         pending = [o for o in accepted if not states.get(o["op"][2], {}).get("done")]
         cancelled = [o for o in accepted if states.get(o["op"][2], {}).get("cancelled")]
         failed = [o for o in accepted if states.get(o["op"][2], {}).get("done") and "exc" in states.get(o["op"][2], {})]
-        shut = any(o["ret_seq"] < at and o["result"][0] == "ok" for o in sdown)
+        # (a shutdown() that raised - its delegate's shutdown did - has still shut this executor down)
+        shut = any(o["ret_seq"] and o["ret_seq"] < at for o in sdown)
         events = [e for e in s.events if e[0] < at]
         for i, L in enumerate(layers):
             T, N = TYPE[L["kind"]], L["name"]
@@ -343,6 +344,19 @@ def catalog():
             "setup": [["build", "ex", {"base": {"kind": "manual"}, "layers": [LAYER[lname]("n0")]}], ["submit", "ex", "f0", {"script": [["tag"]]}], ["sleep", 0.01]],
             "threads": [[["sleep", 0.5], ["shutdown", "ex", False]], [["sleep", 0.5], ["shutdown", "ex", False]]],
             "settle": 1.0, "final": [["runall", "ex"], ["sleep", 1.5]] + sample_ops(["f0"])}
+    for lname in ("map", "retry", "throttle", "poll", "timeout", "cos"):
+        # a submit() refused after shutdown creates no future: the counters stay where they were
+        out["refused-submit/" + lname] = {
+            "setup": [["build", "ex", {"base": {"kind": "manual"}, "layers": [LAYER[lname]("n0")]}], ["submit", "ex", "f0", {"script": [["tag"]]}], ["sleep", 0.01]],
+            "threads": [[["sleep", 0.5], ["shutdown", "ex", False], ["submit", "ex", "f1", {"script": [["tag"]]}], ["submit", "ex", "f2", {"script": [["tag"]]}]]],
+            "settle": 1.0, "final": [["runall", "ex"], ["sleep", 1.5]] + sample_ops(["f0"])}
+        # the delegate's shutdown() raises (a pool told to wait from one of its own workers does): the executor is shut down all
+        # the same - submit() is refused from then on - and is no longer "in use"
+        out["delegate-shutdown-raises/" + lname] = {
+            "setup": [["build", "ex", {"base": {"kind": "manual"}, "layers": [dict(LAYER[lname]("n0"), delegate_shutdown_raises=True)]}],
+                      ["submit", "ex", "f0", {"script": [["tag"]]}], ["sleep", 0.01], ["runall", "ex"], ["sleep", 0.7]],
+            "threads": [[["sleep", 0.5], ["shutdown", "ex", True], ["shutdown", "ex", True]]],
+            "settle": 1.0, "final": [["sleep", 0.5]] + sample_ops(["f0"])}
     return out
 
 
